@@ -87,6 +87,12 @@ claim("C15",
       GEN, "DESIGN.md 5/C15")
 
 
+claim("C13",
+      "Cli.tla defines the outcome protocol of a zerv process (Ok | CleanError; panic, signal, result on failure, silent failure, diagnostics on stdout, -v changing stdout are bad) and the fault / value / stdin classes. MC_Cli walks the K git calls of a run (K measured on the current build for 8 scenario/command pairs) injecting one or two faults of 15 modes at every position, and enumerates every (sub-command, option from the current clap definitions, value class, stdin class, -v) combination; each is executed by the real debug-build binary (behind a git shim for the plans) and, with random multi-option vectors and special situations, judged by Trace_Cli.",
+      "Fault plans exhaustive for single faults (thorough: pairs, sampled); argument classes pairwise-exhaustive over (option, value class) x stdin class; random beyond. The binary is the harness-profile build of /repo/src/main.rs (debug assertions on).",
+      "TLA+ outcome protocol + TLC-enumerated fault plans / argument classes executed on the real binary; every run validated by TLC", "DESIGN.md 5/C13")
+
+
 def main():
     m = {
         "version": 1,
@@ -108,7 +114,7 @@ def main():
                 "thorough_cmd": "./check %s --tier thorough" % pid,
                 "evidence_file": "evidence/%s.json" % pid,
                 "replay_cmd_template": "./check %s --replay {path}" % pid, "engine": "tlc+zv",
-                "level_claimed": {"category": "model_checking", "text": c["text"], "design_ref": c["ref"]},
+                "level_claimed": {"category": "fault_enumeration" if pid == "C13" else "model_checking", "text": c["text"], "design_ref": c["ref"]},
                 "level_note": c["note"], "technique": c["technique"]})
         else:
             m["not_applicable"].append({"property_id": pid, "reason": "check under construction in this round; not claimed until its specification module and conformance harness are committed"})
